@@ -67,6 +67,20 @@ func (f *fakeRT) RoundTrip(req *http.Request) (*http.Response, error) {
 	return &http.Response{StatusCode: 200, Proto: "HTTP/2.0", Header: h, Body: io.NopCloser(bytes.NewReader(b))}, nil
 }
 
+type epRT struct {
+	inner      http.RoundTripper
+	host, path string
+	bad        *int64
+}
+
+func (t *epRT) RoundTrip(req *http.Request) (*http.Response, error) {
+	time.Sleep(300 * time.Microsecond) // "connecting"
+	if req.URL.Host != t.host || req.URL.Path != t.path {
+		atomic.AddInt64(t.bad, 1)
+	}
+	return t.inner.RoundTrip(req)
+}
+
 func writeFileAtomic(path, content string) {
 	tmp := path + ".tmp"
 	_ = os.WriteFile(tmp, []byte(content), 0644)
@@ -98,9 +112,13 @@ func init() {
 		hosts := &discovery.Hosts{}
 		dhcp := &discovery.DHCP{}
 		rt := &fakeRT{}
+		// every endpoint keeps the package's own transport wrapper (it rewrites the request URL for the endpoint);
+		// behind it a per-endpoint checker that, like http.Transport, looks at the request URL only after a while:
+		// a request must reach an endpoint with THAT endpoint's host and path
+		var misrouted int64
 		mkEp := func(host string) *endpoint.DOHEndpoint {
-			e := &endpoint.DOHEndpoint{Hostname: host}
-			e.VerifSetRoundTripper(rt)
+			e := &endpoint.DOHEndpoint{Hostname: host, Path: "/" + host[:1]}
+			e.VerifWrapRoundTripper(&epRT{inner: rt, host: host + ":443", path: e.Path, bad: &misrouted})
 			return e
 		}
 		healthy := int32(1)
@@ -113,7 +131,7 @@ func init() {
 			MinTestInterval: 20 * time.Millisecond,
 			EndpointTester: func(e endpoint.Endpoint) endpoint.Tester {
 				return func(ctx context.Context, testDomain string) error {
-					if atomic.LoadInt32(&healthy) == 0 && e.String() == "https://a.example" {
+					if atomic.LoadInt32(&healthy) == 0 && e.String() == "https://a.example/a" {
 						return fmt.Errorf("probe failed")
 					}
 					return nil
@@ -244,6 +262,9 @@ func init() {
 		out := "ok"
 		if answered*10 < sent*9 {
 			out = fmt.Sprintf("only %d of %d queries answered", answered, sent)
+		}
+		if m := atomic.LoadInt64(&misrouted); m > 0 {
+			out = fmt.Sprintf("misrouted=%d requests reached an endpoint with another request's host or path", m)
 		}
 		c.Emit("racesoak", out)
 		c.Stat("soak")
